@@ -25,6 +25,22 @@ mod fmt {
         }
         FmtAttribute { lit, comma: None, args: p }.transparent_call()
     }
+    /// `placeholders_by_arg(name)` / `contains_arg(name)`: (contains, number of placeholders, for each up to 6: has_modifiers, first byte and
+    /// length of the trait name)
+    pub fn by_arg(lit: syn::LitStr, args: Vec<(Option<syn::Ident>, Expr)>, name: &str, out: &mut [(bool, u8, u8); 6]) -> (bool, usize) {
+        let mut p = Punctuated::new();
+        for (alias, expr) in args {
+            p.push(FmtArgument { alias: alias.map(|a| (a, token::Eq { idx: 0 })), expr });
+        }
+        let attr = FmtAttribute { lit, comma: None, args: p };
+        let contains = attr.contains_arg(name);
+        let mut n = 0;
+        for ph in attr.placeholders_by_arg(name) {
+            if n < out.len() { out[n] = (ph.has_modifiers, ph.trait_name.as_bytes()[0], ph.trait_name.len() as u8); }
+            n += 1;
+        }
+        (contains, n)
+    }
 }
 
 #[path = "@ORACLE_RS@"]
@@ -53,19 +69,7 @@ fn trait_sig(ty: u8) -> (u8, u8) {
     }
 }
 
-/// Argument forms (`cfg`), each argument being `[name =] expr`:
-///   bits 0-1  number of arguments (0..=2)
-///   per argument k (bits 2+4k ..): bit0 has alias, bit1 alias name (a / b), bit2 the expression is a single identifier, bit3 its name (a / b)
-///
-/// Disagreement codes (0 = the decision is the documented one):
-///   1 the rule says "delegate", the derive does not
-///   2 the rule says "do not delegate" (more than a bare placeholder, a modifier, no such argument, std rejects the literal or the
-///     argument list), the derive delegates
-///   3 delegates to a different expression        4 delegates under a different trait
-#[no_mangle]
-pub unsafe extern "C" fn probe(ptr: *const u8, len: usize, digest: *mut u8, cfg: u32) -> u32 {
-    let bytes = core::slice::from_raw_parts(ptr, len);
-    let d = core::slice::from_raw_parts_mut(digest, 64);
+fn build_args(cfg: u32) -> (usize, Vec<(Option<syn::Ident>, Expr)>) {
     let nargs = (cfg & 3) as usize;
     let mut args: Vec<(Option<syn::Ident>, Expr)> = Vec::new();
     let mut k = 0;
@@ -80,6 +84,86 @@ pub unsafe extern "C" fn probe(ptr: *const u8, len: usize, digest: *mut u8, cfg:
         args.push((alias, expr));
         k += 1;
     }
+    (nargs, args)
+}
+
+/// C07 (decision half): which placeholders of the literal refer to the argument named `a` - "mentions `_variant` as a placeholder or as an
+/// argument" - and whether such a placeholder carries a format specifier or a non-Display trait (then the derive must reject the attribute).
+/// `format_args!` resolves a named placeholder to the explicit `name = expr` argument if there is one, else to the variable of that name; a
+/// positional or implicit placeholder to the i-th argument of the list, *whether or not that argument is written with a name*.  A placeholder
+/// refers to `a` when the expression it resolves to is the single identifier `a`.
+///
+/// Codes: 0 agree (or std rejects the literal / an index is out of range: nothing demanded);
+///   5 `contains_arg` differs   6 the number of placeholders referring to `a` differs   7 modifiers / trait of one of them differ
+#[no_mangle]
+pub unsafe extern "C" fn probe_by_arg(ptr: *const u8, len: usize, digest: *mut u8, cfg: u32) -> u32 {
+    let bytes = core::slice::from_raw_parts(ptr, len);
+    let d = core::slice::from_raw_parts_mut(digest, 64);
+    let (nargs, args) = build_args(cfg);
+    let mut got = [(false, 0u8, 0u8); 6];
+    let (contains, gn) = fmt::by_arg(syn::LitStr { ptr, len }, args, "a", &mut got);
+    d[0] = contains as u8;
+    d[1] = gn as u8;
+    let r = reference(bytes);
+    if !r.ok || r.n > MAXPH { return 0; }
+    let mut want = [(false, 0u8, 0u8); 6];
+    let mut wn = 0usize;
+    let mut i = 0;
+    while i < r.n {
+        let ph = &r.ph[i];
+        // the argument this placeholder resolves to: Some(k) = k-th of the list, None = the variable of that name
+        let mut refers = false;
+        if ph.kind == K_NAME {
+            let name = &bytes[ph.a..ph.b];
+            let mut explicit: Option<usize> = None;
+            let mut k = 0;
+            while k < nargs {
+                let a = (cfg >> (2 + 4 * k)) & 15;
+                if a & 1 != 0 && name.len() == 1 && name[0] == NAMES[((a >> 1) & 1) as usize] && explicit.is_none() { explicit = Some(k); }
+                k += 1;
+            }
+            match explicit {
+                Some(k) => { let a = (cfg >> (2 + 4 * k)) & 15; refers = a & 4 != 0 && (a >> 3) & 1 == 0; }
+                None => refers = name.len() == 1 && name[0] == b'a',
+            }
+        } else {
+            let idx = if ph.kind == K_INDEX { ph.a } else { ph.pos };
+            if idx >= nargs { return 0; }
+            let a = (cfg >> (2 + 4 * idx)) & 15;
+            refers = a & 4 != 0 && (a >> 3) & 1 == 0;
+        }
+        if refers {
+            let (c0, l) = trait_sig(ph.ty);
+            if wn < 6 { want[wn] = (ph.flags != 0 || ph.ty == 2 || ph.ty == 3, c0, l); }
+            wn += 1;
+        }
+        i += 1;
+    }
+    d[2] = wn as u8;
+    if contains != (wn > 0) { return 5; }
+    if gn != wn { return 6; }
+    let mut j = 0;
+    while j < wn && j < 6 {
+        if got[j] != want[j] { return 7; }
+        j += 1;
+    }
+    0
+}
+
+/// Argument forms (`cfg`), each argument being `[name =] expr`:
+///   bits 0-1  number of arguments (0..=2)
+///   per argument k (bits 2+4k ..): bit0 has alias, bit1 alias name (a / b), bit2 the expression is a single identifier, bit3 its name (a / b)
+///
+/// Disagreement codes (0 = the decision is the documented one):
+///   1 the rule says "delegate", the derive does not
+///   2 the rule says "do not delegate" (more than a bare placeholder, a modifier, no such argument, std rejects the literal or the
+///     argument list), the derive delegates
+///   3 delegates to a different expression        4 delegates under a different trait
+#[no_mangle]
+pub unsafe extern "C" fn probe(ptr: *const u8, len: usize, digest: *mut u8, cfg: u32) -> u32 {
+    let bytes = core::slice::from_raw_parts(ptr, len);
+    let d = core::slice::from_raw_parts_mut(digest, 64);
+    let (nargs, args) = build_args(cfg);
     let arg0_alias: Option<u8> = if nargs >= 1 && (cfg >> 2) & 1 != 0 { Some(NAMES[((cfg >> 3) & 1) as usize]) } else { None };
     let got = fmt::decide(syn::LitStr { ptr, len }, args);
 
